@@ -43,4 +43,13 @@ reg("C08",
                   "(RWMutex.TryRLock, Mutex.TryLock); goroutines are identified by their runtime goroutine id; the statement "
                   "h.subscribers = append(h.subscribers, sub) is one step of the code and two of the model (read, write); sync.RWMutex / sync.Mutex "
                   "serve a waiting goroutine at the unlock, before later arrivals: the model (retry) allows more schedules than the code"],
-    assumptions=["total events per subscription below the queue capacity unless the case is a slow-consumer case"])
+    assumptions=["total events per subscription below the queue capacity unless the case is a slow-consumer case",
+                 "the hub is READY when a subscription is requested (every generated case; Model/Hub.hub_live returns no events for blocks "
+                 "processed before readiness, including the block that makes the hub ready, whereas the real hub fans those events out to "
+                 "a subscription obtained earlier: on that class the c08 theorems describe the model, not the code - witness "
+                 "c08_ready_transition_events_conclusion_weaker in Properties/Cxx_Audit2.v, replay TestW1_C08_SubscribedBeforeReadyReceivesEverything: "
+                 "the code itself conforms to the property there)",
+                 "subscriptions register no OnTerminating callbacks: Subscription.Shutdown of an overflowing subscriber runs on the producer "
+                 "goroutine under the Forkable's write lock, so a user callback registered on that subscription delays the hub for as long as it "
+                 "runs and wedges it if it calls back into the hub (observation W1-C08-1: no consumer inside the library registers one; the "
+                 "model's drop step contains no subscriber code)"])
